@@ -165,6 +165,9 @@ class Contract:
                 exc = SExc(excs[k - 1], ("<from callee contract>",), site=f"callee {f.ref.qualname}")
                 if self_obj is not None and getattr(self, "log_event", None):
                     self_obj.trace.append((self.log_event, "raised"))
+                er = getattr(self, "effects_raise", None)
+                if er is not None:
+                    er(self_obj, a, exc)
                 raise PyRaise(exc)
         elif excs:
             k = st.fork(len(excs) + 1)
@@ -173,7 +176,8 @@ class Contract:
                 old = self_obj.snapshot() if self_obj is not None else None
                 if self_obj is not None:
                     self.havoc(st, self_obj)
-                for _label, fml in self._gen(self.on_raise(old, self_obj, a, exc) if self_obj is not None else self.on_raise(a, exc)):
+                orc = getattr(self, "on_raise_callee", None) or self.on_raise
+                for _label, fml in self._gen(orc(old, self_obj, a, exc) if self_obj is not None else orc(a, exc)):
                     st.assume(fml)
                 if self_obj is not None and getattr(self, "log_event", None):
                     self_obj.trace.append((self.log_event, "raised"))
@@ -211,6 +215,9 @@ class Contract:
             result = uf_shape_value(st, f"fn:{self.target.split(':')[1]}", det_terms, self.result)
         else:
             result = self.result.fresh(st, f"r_{f.ref.node.name}") if self.result is not None else None
+        # the callee's contract speaks about the events of this call only: evaluate it over a local trace
+        saved_global = st.trace
+        st.trace = []
         if self_obj is not None:
             ev = getattr(self, "log_event", None)
             if ev:
@@ -220,8 +227,13 @@ class Contract:
                 eff(old, self_obj, a, result)
         ens_fn = getattr(self, "ensures_callee", None) or self.ensures
         ens = ens_fn(old, self_obj, a, result) if self_obj is not None else ens_fn(a, result)
-        for _label, fml in self._gen(ens):
-            st.assume(fml if isinstance(fml, (SBool, bool)) else mk_bool(V._zb(fml)))
+        try:
+            for _label, fml in self._gen(ens):
+                st.assume(fml if isinstance(fml, (SBool, bool)) else mk_bool(V._zb(fml)))
+        finally:
+            st.trace = saved_global + st.trace
+        if check_pre:
+            st.cover(f"{ip.task.name}/reach@after-{f.ref.qualname}:{(site or '').split(':')[-1]}")
         if self_obj is not None:
             delta = list(self_obj.trace)
             self_obj.trace.clear()
@@ -272,7 +284,7 @@ def contract(target, property=None, **kw):  # noqa: A002
         ns.update(kw)
         ns["target"] = target
         ns["property"] = property
-        for fn in ("requires", "ensures", "on_raise", "pure_spec", "native_call", "make_self", "observe", "effects", "invariant", "ensures_callee", "setup", "call_real", "missing_field", "comprehension_sum", "decode_model"):
+        for fn in ("requires", "ensures", "on_raise", "pure_spec", "native_call", "make_self", "observe", "effects", "invariant", "ensures_callee", "on_raise_callee", "effects_raise", "setup", "call_real", "missing_field", "comprehension_sum", "decode_model"):
             if fn in ns and inspect.isfunction(ns[fn]):
                 ns[fn] = staticmethod(ns[fn])
         C = type(cls.__name__, (Contract,), ns)
